@@ -135,7 +135,9 @@ def louvain[S](
             if current_comm != best_comm:
                 sigma_curr = comm_degree[current_comm]
                 stay_gain = edges_to_current - resolution * v_degree * sigma_curr / (2 * total_weight)
-                if stay_gain >= best_gain:
+                # Move only on a real improvement: a tie that differs by float rounding would let two
+                # nodes chase each other between communities forever
+                if stay_gain >= best_gain - 1e-12:
                     best_comm = current_comm
                     best_gain = stay_gain
 
